@@ -209,3 +209,31 @@ Proof.
       specialize (IH _ _ Wcb). lia. }
   specialize (Hr n p p W). lia.
 Qed.
+
+(** the constructive form of completeness: a failing check exhibits a cycle *)
+Lemma forallb_false_ex {A} (f : A -> bool) : forall l, forallb f l = false -> exists x, In x l /\ f x = false.
+Proof.
+  induction l as [|a l IH]; cbn [forallb]; intros H; [discriminate|].
+  destruct (f a) eqn:Fa.
+  - destruct (IH H) as (x & Hx & Hf). exists x. split; [right; exact Hx|exact Hf].
+  - exists a. split; [left; reflexivity|exact Fa].
+Qed.
+
+Theorem rank_okb_false_cycle g :
+  rank_okb g (tab_get (rank_iter (List.length g) g [])) = false ->
+  exists n c, walk (graph_edge g) n c c.
+Proof.
+  unfold rank_okb. intros H. apply forallb_false_ex in H as ([p succs] & Hin & H).
+  apply forallb_false_ex in H as (q & Hq & H). cbn [fst snd] in H.
+  apply PeanoNat.Nat.ltb_ge in H.
+  assert (He : graph_edge g p q) by (exists succs; split; assumption).
+  pose proof (step_ge g (rank_iter (List.length g) g []) p q He) as Hge.
+  rewrite <- rank_iter_S in Hge.
+  assert (Hgt : tab_get (rank_iter (List.length g) g []) p < tab_get (rank_iter (S (List.length g)) g []) p)
+    by lia.
+  destruct (rising_chain g _ _ Hgt) as (l & z & Hl & Hc).
+  assert (Hnd : ~ NoDup (p :: l)).
+  { intros Hnd. pose proof (NoDup_incl_length Hnd (schain_sources g l p z Hc)) as Hlen.
+    rewrite map_length in Hlen. cbn [List.length] in Hlen. lia. }
+  exact (schain_repeat_cycle _ _ _ _ Hc Hnd).
+Qed.
